@@ -4,6 +4,8 @@ package main
 import (
 	"fmt"
 	"os"
+	"os/signal"
+	"syscall"
 
 	"verif/harness/h"
 )
@@ -14,6 +16,7 @@ func main() {
 		os.Exit(2)
 	}
 	h.Quiet()
+	signal.Ignore(syscall.SIGPIPE)
 	id := os.Args[1]
 	f, ok := h.Checks[id]
 	if !ok {
